@@ -25,6 +25,15 @@ impl NaiveDate {
         requires -100_000_000 <= self.n + d.d <= 100_000_000,
         ensures r.n == self.n + d.d,
     { unimplemented!() }
+    // Ord::min / Ord::max on dates (assumed: by day number), so that a clamp spelled `.min(end)` stays inside the subset
+    #[verifier::external_body]
+    pub fn min(self, o: NaiveDate) -> (r: NaiveDate)
+        ensures r.n == (if self.n <= o.n { self.n } else { o.n }),
+    { unimplemented!() }
+    #[verifier::external_body]
+    pub fn max(self, o: NaiveDate) -> (r: NaiveDate)
+        ensures r.n == (if self.n >= o.n { self.n } else { o.n }),
+    { unimplemented!() }
 }
 impl vstd::std_specs::cmp::PartialOrdSpecImpl for NaiveDate {
     open spec fn obeys_partial_cmp_spec() -> bool { true }
@@ -150,7 +159,7 @@ def gen(repo):
     specs = [
         dict(fn="start_date", ensures=["r.n == lo(*self)"], attrs=[]),
         dict(fn="end_date", ensures=["r.n == hi(*self)"]),
-        dict(fn="partition",
+        dict(fn="partition", attrs=["verifier::loop_isolation(false)"],   # facts about immutable locals bound before the loop stay visible in it
              requires=["in_dom(*self)", "count <= 64 || (ndays(*self) <= 20_000 && count <= 65536)"],
              ensures=["count < 2 ==> r@.len() == 1 && r@[0] == *self",
                       "count >= 2 ==> exact_cover(r@, lo(*self), hi(*self))",
